@@ -97,7 +97,7 @@ func main() {
 		}
 	}
 	wg.Wait()
-	c.Finish("structure-aware generation of untrusted transactions: every tx type x every governance command (system, name, enterprise, unknown) x argument shapes (missing, [], null, wrong JSON type per position, extra, huge numbers, negative, non-UTF8, long strings, wrong-length base58) x payload shapes (not JSON, truncated, deeply nested) x field lengths (account, recipient, amount, price 0..40 bytes) x sender states (new, rich, staked, voter, name owner, admin); each input is logged before it is sent to a node process. Monitors: (a) stateless validation returns accept/reject without panic; (b) pool admission through the hub answers (no panic/hang in the verifier actors); (c) every admitted tx is executed by the producer (no panic in block generation) and by a fresh validator (process survives). A case = one input; non-trivial = input that passed (a) and reached admission; distinct = hash of the input",
+	c.Finish("structure-aware generation of untrusted transactions: every tx type x every governance command (system, name, enterprise, unknown) x argument shapes (missing, [], null, wrong JSON type per position, extra, huge numbers, negative, non-UTF8, long strings, wrong-length base58) x payload shapes (not JSON, truncated, deeply nested) x field lengths (account, recipient, amount, price 0..40 bytes) x sender states (new, rich, staked, voter, name owner, admin); each input is logged before it is sent to a node process. Monitors: (a) stateless validation returns accept/reject without panic; (b) pool admission through the hub answers (no panic/hang in the verifier actors); (c) every admitted tx is executed by the producer (no panic in block generation) and by a fresh validator (process survives). Thorough tier: a governance history with two voters on one system parameter (stake, vote, full unstake of one, re-vote of the other, coming back, voting again) in which the chain is moved past the 86400-block delays whenever an operation is refused for time. A case = one input; non-trivial = input that passed (a) and reached admission; distinct = hash of the input",
 		c.Pick(600, 6000),
 		"contracts execute on the PUC-Lua shim; crashes inside LuaJIT itself are out of reach",
 		"a pool admission call that does not answer within the watchdog is attributed to a panic only if the node log shows one; otherwise the run is inconclusive")
@@ -343,6 +343,7 @@ func run(c *vf.Ctx, name string, public bool, ver int, part int) {
 	// --- drive -----------------------------------------------------------------------------------
 	admittedSince := 0
 	restarts := 0
+	noVal := false // history phase: the chain is moved 86400 blocks at a time, the validator does not follow
 	flush := func() bool {
 		if admittedSince == 0 {
 			return true
@@ -388,6 +389,9 @@ func run(c *vf.Ctx, name string, public bool, ver int, part int) {
 			c.Count("receipt_"+rc.Status, 1)
 		}
 		chain = append(chain, rsp.Block)
+		if noVal {
+			return true
+		}
 		ve, err := val.AddBlock(rsp.Block)
 		if err != nil {
 			st := site(err.Error())
@@ -517,6 +521,101 @@ func run(c *vf.Ctx, name string, public bool, ver int, part int) {
 		}
 	}
 	flush()
+	// --- governance history across the staking/voting delays (thorough tier): two voters on one parameter,
+	// one of them leaves completely and comes back. Every tx goes through pool admission and block production.
+	if c.Quick() || ver < 2 || part != 0 || restarts > 0 {
+		return
+	}
+	noVal = true
+	c.Count("history_runs", 1)
+	hr := c.Rand("history/" + name)
+	A, B := accts[5], accts[6]
+	steps := 0
+	// put submits one governance tx; returns 1 executed, 0 not executed, -1 stop
+	put := func(a *rig.Acct, to string, amt *big.Int, payload []byte, desc string) int {
+		st, err := nut.GetState(a.Addr)
+		if err != nil {
+			c.Violation("node-died-in-admission@history", fmt.Sprintf("%s history %s: %v", name, desc, err), map[string]string{"config": name, "step": desc})
+			return -1
+		}
+		tx := rig.TxSpec{Type: types.TxType_GOVERNANCE, From: a, To: []byte(to), Nonce: st.Nonce + 1, Amount: amt, Payload: payload, GasPrice: gp, ChainID: cid()}.Build()
+		c.Eval(1)
+		steps++
+		pr, err := nut.MempoolPut(rig.EncTx(tx))
+		if err != nil {
+			c.Violation("node-died-in-admission@"+site(err.Error()), fmt.Sprintf("%s history step %q: %.1500s", name, desc, err.Error()), map[string]string{"config": name, "step": desc})
+			return -1
+		}
+		if strings.HasPrefix(pr, "PANIC") {
+			c.Violation("panic-in-pool-admission@"+site(pr), fmt.Sprintf("%s history step %q: %s", name, desc, panicMsg(pr)), map[string]string{"config": name, "step": desc})
+			return -1
+		}
+		c.Count("history/"+strings.SplitN(desc, " ", 2)[0]+"/"+map[bool]string{true: "admitted", false: "refused"}[pr == ""], 1)
+		if pr != "" {
+			return 0
+		}
+		c.Nontrivial(fmt.Sprintf("%s|history|%d|%s", name, steps, desc))
+		admittedSince++
+		r0 := restarts
+		if !flush() || restarts != r0 {
+			return -1
+		}
+		if st2, err := nut.GetState(a.Addr); err == nil && st2.Nonce > st.Nonce {
+			return 1
+		}
+		return 0
+	}
+	ff := func() bool {
+		nut.Timeout = 20 * time.Minute
+		e, err := nut.ProduceEmpty(86400)
+		nut.Timeout = 90 * time.Second
+		if err != nil || e != "" {
+			c.Inconclusive(fmt.Sprintf("%s history: fast-forward failed: %v %s", name, err, e))
+			return false
+		}
+		c.Count("history/fast_forwards", 1)
+		return true
+	}
+	// try runs an operation; when it is not executed (normally: "less time has passed") the chain is moved past
+	// the delay once and the operation is tried again
+	try := func(f func() int) bool {
+		switch f() {
+		case -1:
+			return false
+		case 0:
+			if !ff() || f() == -1 {
+				return false
+			}
+		}
+		return true
+	}
+	sys := types.AergoSystem
+	stakeAmt := new(big.Int).Mul(big.NewInt(20000), rig.Aergo)
+	param := []string{"BPCOUNT", "GASPRICE", "NAMEPRICE", "STAKINGMIN"}[hr.Intn(4)]
+	vals := map[string][]string{"BPCOUNT": {"13", "17", "5"}, "GASPRICE": {"50000000000", "60000000000", "70000000000"}, "NAMEPRICE": {"1000000000000000000", "2000000000000000000", "3000000000000000000"},
+		"STAKINGMIN": {"10000000000000000000000", "9000000000000000000000", "8000000000000000000000"}}[param]
+	vote := func(a *rig.Acct, who, v string) func() int {
+		return func() int { return put(a, sys, big.NewInt(0), rig.GovPayload("v1voteDAO", param, v), "voteDAO "+who+" "+param+"="+v) }
+	}
+	seq := []func() int{
+		func() int { return put(A, sys, stakeAmt, rig.GovPayload("v1stake"), "stake A") },
+		func() int { return put(B, sys, stakeAmt, rig.GovPayload("v1stake"), "stake B") },
+		vote(A, "A", vals[0]), vote(B, "B", vals[0]),
+		func() int { return put(A, sys, stakeAmt, rig.GovPayload("v1unstake"), "unstake A (all)") },
+		vote(B, "B", vals[1]),
+		func() int { return put(A, sys, stakeAmt, rig.GovPayload("v1stake"), "stake A (again)") },
+		vote(A, "A", vals[2]), vote(A, "A", vals[1]),
+		func() int { return put(B, sys, stakeAmt, rig.GovPayload("v1unstake"), "unstake B (all)") },
+		vote(A, "A", vals[0]),
+		func() int { return put(B, sys, stakeAmt, rig.GovPayload("v1stake"), "stake B (again)") },
+		vote(B, "B", vals[2]),
+	}
+	for _, f := range seq {
+		if !try(f) {
+			return
+		}
+	}
+	c.Count("history_runs_completed", 1)
 }
 
 var c_samples []input
